@@ -22,7 +22,7 @@ def encode_links(specs, workdir):
     return files
 
 
-def handmade_link(rng, serial, small=False):
+def handmade_link(rng, serial, small=False, allow_trim_begin=True):
     bs0 = rng.choice([64, 64, 128, 256, 512, 1024])
     bs1 = rng.choice([b for b in (64, 128, 256, 512, 1024, 2048, 4096) if b >= bs0])
     ch = rng.choice([1, 1, 2, 3])
@@ -55,7 +55,7 @@ def handmade_link(rng, serial, small=False):
         layout = (1, nw)
     hl = rng.choice([(1, 2), (1, 1, 1), (1, 2)])
     goff = rng.choice([0, 0, 0, 1000, 123457, -7]) if nw >= 3 else 0
-    if goff < 0 and (layout[0] < 2 or layout[0] >= nw):
+    if goff < 0 and (layout[0] < 2 or layout[0] >= nw or not allow_trim_begin):
         goff = 0          # a negative granule position on the first page is not an intact stream
     data, meta = streams.build_link(serial, channels=ch, rate=rate, bs0=bs0, bs1=bs1, wseq=tuple(wseq), total=total,
                                     layout=layout, header_layout=hl, gran_offset=goff)
